@@ -258,6 +258,60 @@ func runC02(ctx *ev.Ctx) {
 			ctx.Report(c01Class(mt, what), generalise(what), what+" | case: "+mt.Desc(), map[string]interface{}{"tree": mt})
 		}
 	})
+	// decode - edit the decoded message - decode another message: what the first receiver does with
+	// its message (members added to a decoded group, a member-less one in particular; AVPs appended;
+	// values overwritten) must not show in a message decoded afterwards
+	for _, name := range []string{"default/app4", "generated/app0", "base/app0"} {
+		c := ConfigByName(name)
+		if c == nil || len(c.A.Groups) < 2 || !ctx.Mine() {
+			continue
+		}
+		_, _, core := c.Atoms(false)
+		hd := c.Headers(1)[0]
+		trees := [][]atoms.N{
+			{c.groupNode(0, nil)},
+			{c.groupNode(0, []atoms.N{c.groupNode(1, nil)})},
+			{core[0], c.groupNode(1, nil), c.groupNode(0, nil)},
+			{c.groupNode(0, []atoms.N{core[0]})},
+		}
+		for ti, tree := range trees {
+			w := refcodec.EncodeMessage(hd, atoms.RefNodes(tree))
+			ctx.Eval(ev.Mix(ev.HS(name), 0xED17, uint64(ti)))
+			what := safely(func() string {
+				m1, err := diam.ReadMessage(bytes.NewReader(w), c.A.D.P)
+				if err != nil {
+					return "first read failed: " + err.Error()
+				}
+				var edit func(avps []*diam.AVP)
+				edit = func(avps []*diam.AVP) {
+					for _, a := range avps {
+						if g, ok := a.Data.(*diam.GroupedAVP); ok {
+							edit(g.AVP)
+							g.AddAVP(core[1].Lib())
+							g.AddAVP(core[2].Lib())
+						}
+					}
+				}
+				edit(m1.AVP)
+				m1.AddAVP(core[1].Lib())
+				m2, err := diam.ReadMessage(bytes.NewReader(w), c.A.D.P)
+				if err != nil {
+					return "second read failed: " + err.Error()
+				}
+				if s := CompareTree(m2.AVP, tree, "avp"); s != "" {
+					return "values read from the reference encoding after an earlier decoded message had been edited: " + s
+				}
+				b, err := m2.Serialize()
+				if err != nil || !bytes.Equal(b, w) || int(m2.Header.MessageLength) != len(w) {
+					return fmt.Sprintf("a message decoded after an earlier decoded message had been edited re-serialises to %d bytes (header says %d), the wire image has %d (err %v)", len(b), m2.Header.MessageLength, len(w), err)
+				}
+				return ""
+			})
+			if what != "" {
+				ctx.Report("", generalise(what), what+" | case: "+name+" tree "+TreeCase{Config: name, Hdr: hd, Tree: tree}.Desc(), nil)
+			}
+		}
+	}
 	hn := 0
 	enumHistories(ctx, func(c *Config, h HistCase) {
 		if ctx.Stop() {
@@ -284,7 +338,7 @@ func runC02(ctx *ev.Ctx) {
 			ctx.Report("", generalise(what), what+" | case: "+h.Desc(), map[string]interface{}{"hist": h})
 		}
 	})
-	ctx.Rule = rule + " PLUS every sequence of <=4 (thorough 5) assembly operations {NewAVP by int / uint32 / name, AddAVP, InsertAVP, Marshal, a Marshal that is rejected} over seven atoms with payload length mod 4 = 0..3, with and without vendor id (one with a vendor id but no V flag given), checking Header.MessageLength and the reference image after every operation; PLUS complete sweeps (see sweep_* keys). WriteTo images are taken by a destination that lets another message pass through WriteTo on another writer before it consumes its bytes."
+	ctx.Rule = rule + " PLUS every sequence of <=4 (thorough 5) assembly operations {NewAVP by int / uint32 / name, AddAVP, InsertAVP, Marshal, a Marshal that is rejected} over seven atoms with payload length mod 4 = 0..3, with and without vendor id (one with a vendor id but no V flag given), checking Header.MessageLength and the reference image after every operation; PLUS decode - edit - decode: after a decoded message has been edited (members added to its decoded groups, member-less ones included) a second message of the same wire image must read back as encoded. PLUS complete sweeps (see sweep_* keys). WriteTo images are taken by a destination that lets another message pass through WriteTo on another writer before it consumes its bytes."
 	ctx.Assume = []string{"refcodec (independent RFC 6733 encoder/decoder, written from the RFC) is correct; self-tested against the RFC layouts"}
 }
 
